@@ -1847,26 +1847,20 @@ theorem andCartesian_off (hr : AndRef andF andF') {st : St} {a b : Ptr} {k : Nat
   unfold andCartesian at h ⊢
   rw [off_vt]
   split at h
-  · rename_i c l i lo hi hm; simp only [hm]
-    split at h
-    · rename_i bl bh hbl hbh; simp only [hbl, hbh]
-      split at h
+  · split at h
+    · split at h
       · cases h
       · rename_i st1 lr h1; simp only [hr _ _ _ _ h1]
         split at h
         · cases h
         · rename_i st2 hr2 h2; simp only [hr _ _ _ _ h2]; exact uniqueBdd_off h
     · cases h
-  · rename_i hm
-    split
-    · rename_i c l i lo hi hm'; exact absurd hm' (hm c l i lo hi)
+  · split at h
     · split at h
-      · rename_i ea eb hea heb; simp only [hea, heb]
-        split at h
-        · cases h
-        · rename_i st1 x h1; simp only [prodLoop_off hr _ _ _ _ _ h1]; exact h
-        · rename_i st1 l h1; simp only [prodLoop_off hr _ _ _ _ _ h1]; exact uniqueOr_off h
       · cases h
+      · rename_i st1 x h1; simp only [prodLoop_off hr _ _ _ _ _ h1]; exact h
+      · rename_i st1 l h1; simp only [prodLoop_off hr _ _ _ _ _ h1]; exact uniqueOr_off h
+    · cases h
 
 theorem andCore_off (hr : AndRef andF andF') {st : St} {a b : Ptr} {y : St × Ptr}
     (h : andCore π andF st a b = some y) : andCore π.off andF' st a b = some y := by
